@@ -39,7 +39,7 @@ Inductive sitem :=
 Record config := {
   c_insecure : bool;
   c_resource : str;
-  c_sm_resume : bool;          (* Config.streamManagementResume *)
+  c_sm_resume : bool;          (* Config.streamManagementResume as the application (or the hook) set it *)
   c_mechs : list str }.        (* Credential.mechanisms *)
 
 (* what survives between connections on the Client, its Session and its transport *)
@@ -48,16 +48,17 @@ Record persist := {
   p_sm_id : str;               (* Session.SMState.Id *)
   p_inbound : N;               (* Session.SMState.Inbound *)
   p_has_queue : bool;          (* Session.SMState.UnAckQueue != nil *)
-  p_sm_enable : bool;          (* Config.StreamManagementEnable (EnableStreamManagement may clear it) *)
+  p_sm_enable : bool;          (* Config.StreamManagementEnable: never changed by the library *)
   p_bind_jid : str;
   p_packet_id : N;             (* Session.lastPacketId *)
   p_code_secure : bool;        (* XMPPTransport.isSecure *)
-  p_tls_enabled : bool }.      (* Session.TlsEnabled *)
+  p_tls_enabled : bool;        (* Session.TlsEnabled *)
+  p_resume_refused : bool }.   (* Config.streamManagementResume was cleared: an <enabled/> did not grant resumption *)
 
 Definition fresh (sm_enable : bool) : persist :=
   {| p_has_session := false; p_sm_id := []; p_inbound := 0; p_has_queue := false;
      p_sm_enable := sm_enable; p_bind_jid := []; p_packet_id := 0;
-     p_code_secure := false; p_tls_enabled := false |}.
+     p_code_secure := false; p_tls_enabled := false; p_resume_refused := false |}.
 
 (* client requests as the server sees them *)
 Inductive creq :=
@@ -77,37 +78,40 @@ Inductive result :=
 Definition drop_session (p : persist) : persist :=
   {| p_has_session := false; p_sm_id := []; p_inbound := 0; p_has_queue := false;
      p_sm_enable := p_sm_enable p; p_bind_jid := []; p_packet_id := 0;
-     p_code_secure := p_code_secure p; p_tls_enabled := false |}.
+     p_code_secure := p_code_secure p; p_tls_enabled := false; p_resume_refused := p_resume_refused p |}.
 
 Definition clear_sm (p : persist) : persist :=
   {| p_has_session := p_has_session p; p_sm_id := []; p_inbound := 0; p_has_queue := false;
      p_sm_enable := p_sm_enable p; p_bind_jid := p_bind_jid p; p_packet_id := p_packet_id p;
-     p_code_secure := p_code_secure p; p_tls_enabled := p_tls_enabled p |}.
+     p_code_secure := p_code_secure p; p_tls_enabled := p_tls_enabled p; p_resume_refused := p_resume_refused p |}.
 
 Definition set_flags (p : persist) (sec tls : bool) : persist :=
   {| p_has_session := p_has_session p; p_sm_id := p_sm_id p; p_inbound := p_inbound p;
      p_has_queue := p_has_queue p; p_sm_enable := p_sm_enable p; p_bind_jid := p_bind_jid p;
-     p_packet_id := p_packet_id p; p_code_secure := sec; p_tls_enabled := tls |}.
+     p_packet_id := p_packet_id p; p_code_secure := sec; p_tls_enabled := tls; p_resume_refused := p_resume_refused p |}.
 
 Definition with_session (p : persist) : persist :=
   {| p_has_session := true; p_sm_id := p_sm_id p; p_inbound := p_inbound p;
      p_has_queue := p_has_queue p; p_sm_enable := p_sm_enable p; p_bind_jid := p_bind_jid p;
-     p_packet_id := p_packet_id p; p_code_secure := p_code_secure p; p_tls_enabled := p_tls_enabled p |}.
+     p_packet_id := p_packet_id p; p_code_secure := p_code_secure p; p_tls_enabled := p_tls_enabled p; p_resume_refused := p_resume_refused p |}.
 
 Definition set_bind (p : persist) (jid : str) (pid : N) : persist :=
   {| p_has_session := p_has_session p; p_sm_id := p_sm_id p; p_inbound := p_inbound p;
      p_has_queue := p_has_queue p; p_sm_enable := p_sm_enable p; p_bind_jid := jid;
-     p_packet_id := pid; p_code_secure := p_code_secure p; p_tls_enabled := p_tls_enabled p |}.
+     p_packet_id := pid; p_code_secure := p_code_secure p; p_tls_enabled := p_tls_enabled p; p_resume_refused := p_resume_refused p |}.
 
-Definition set_sm (p : persist) (id : str) (enable : bool) : persist :=
+(* a new stream-managed session: id, count zero, new queue; [refused]: whether the client's wish
+   for resumption (Config.streamManagementResume) is cleared from now on *)
+Definition set_sm (p : persist) (id : str) (refused : bool) : persist :=
   {| p_has_session := p_has_session p; p_sm_id := id; p_inbound := 0;
-     p_has_queue := true; p_sm_enable := enable; p_bind_jid := p_bind_jid p;
-     p_packet_id := p_packet_id p; p_code_secure := p_code_secure p; p_tls_enabled := p_tls_enabled p |}.
+     p_has_queue := true; p_sm_enable := p_sm_enable p; p_bind_jid := p_bind_jid p;
+     p_packet_id := p_packet_id p; p_code_secure := p_code_secure p; p_tls_enabled := p_tls_enabled p;
+     p_resume_refused := refused |}.
 
 Definition add_inbound (p : persist) (k : N) : persist :=
   {| p_has_session := p_has_session p; p_sm_id := p_sm_id p; p_inbound := p_inbound p + k;
      p_has_queue := p_has_queue p; p_sm_enable := p_sm_enable p; p_bind_jid := p_bind_jid p;
-     p_packet_id := p_packet_id p; p_code_secure := p_code_secure p; p_tls_enabled := p_tls_enabled p |}.
+     p_packet_id := p_packet_id p; p_code_secure := p_code_secure p; p_tls_enabled := p_tls_enabled p; p_resume_refused := p_resume_refused p |}.
 
 (* ---- the read primitives (DESIGN.md appendix A) ---- *)
 (* InitStream: only a stream header *)
@@ -150,14 +154,20 @@ Definition o (chan : bool) (r : creq) (seen : list sitem) : out :=
   {| o_req := r; o_tls := chan; o_seen := seen |}.
 
 (* ---- steps after authentication (stream already restarted, features f read) ---- *)
+(* the resume attribute of <enable/>: the application's wish, until an <enabled/> has not granted it *)
+Definition resume_wish (cfg : config) (p : persist) : bool := c_sm_resume cfg && negb (p_resume_refused p).
+
+(* EnableStreamManagement.  An <enabled/> that does not grant resumption (resume absent, false or
+   not a boolean) refuses RESUMPTION only: stream management is on for this stream, the id is
+   stored all the same, and later connections still ask for <enable/> - with resume='false'. *)
 Definition step_enable (cfg : config) (chan : bool) (p : persist) (f : features) (s seen : list sitem)
   : list out * result * persist :=
   if f_sm f && p_sm_enable p then
-    let w := [o chan (REnable (c_sm_resume cfg)) seen] in
+    let w := [o chan (REnable (resume_wish cfg p)) seen] in
     match s with
     | SEnabled id r :: _ =>
-        (w, Ok, set_sm p id (match r with ResTrue => p_sm_enable p | _ => false end))
-    | SFailed :: _ => (w, Err false false, set_sm p [] (p_sm_enable p))
+        (w, Ok, set_sm p id (match r with ResTrue => p_resume_refused p | _ => true end))
+    | SFailed :: _ => (w, Err false false, set_sm p [] (p_resume_refused p))
     | _ => (w, Err false false, p)
     end
   else ([], Ok, p).
@@ -206,6 +216,17 @@ Definition step_resume (cfg : config) (chan : bool) (p : persist) (f : features)
        is bound, and the held state is discarded (stanzas of the new session must never be
        counted into it). *)
     step_bind cfg chan (if f_sm f then p else clear_sm p) f s seen.
+
+(* The same step when the WRITE of <resume/> may fail ([wfail]: the connection went away
+   after the features were read).  The request has not reached the server: nothing was
+   confirmed and nothing refused, so the state held is kept as it is; the write error ends
+   the negotiation - no bind request follows on this stream - and the connection fails. *)
+Definition resume_attempted (p : persist) (f : features) : bool :=
+  f_sm f && negb (str_eqb (p_sm_id p) []).
+Definition step_resume_w (wfail : bool) (cfg : config) (chan : bool) (p : persist) (f : features)
+  (s seen : list sitem) : list out * result * persist :=
+  if wfail && resume_attempted p f then ([], Err false false, p)
+  else step_resume cfg chan p f s seen.
 
 (* auth, then stream restart, then resume | bind ... *)
 Definition step_auth (cfg : config) (chan : bool) (p : persist) (f : features) (s seen : list sitem)
@@ -287,6 +308,22 @@ Definition connect (cfg : config) (dial_ok tls_ok : bool) (p0 : persist) (s : li
       end
   end.
 
+(* ---- what the application is told (events delivered to the EventHandler) ----
+   Client.connect (client.go) = transport.Connect + NewSession (the function [connect]
+   above) followed, on the success path only, by updateState(StateSessionEstablished).
+   On the failure path the connection is torn down (c.Disconnect()) and the error is
+   returned: the handler is told nothing (in particular no Disconnected event: no session
+   existed; that event made a StreamManager start a second retry loop). *)
+Inductive cev := EvEstablished | EvDisconnected.
+Definition announce (r : result) : list cev :=
+  match r with Ok => [EvEstablished] | Err _ _ => [] end.
+Definition client_connect (cfg : config) (dial_ok tls_ok : bool) (p0 : persist) (s : list sitem)
+  : list out * result * persist * list cev :=
+  let '(w, r, p) := connect cfg dial_ok tls_ok p0 s in (w, r, p, announce r).
+Definition cev_eqb (a b : cev) : bool :=
+  match a, b with EvEstablished, EvEstablished | EvDisconnected, EvDisconnected => true | _, _ => false end.
+Definition count_ev (e : cev) (l : list cev) : nat := length (filter (cev_eqb e) l).
+
 (* A history of connections; after a successful one, [traffic] stanzas are received
    before it is lost (Client.recv counts them: Model/Recv.v). *)
 Record conn := { k_dial : bool; k_tls : bool; k_script : list sitem; k_traffic : N }.
@@ -299,6 +336,18 @@ Fixpoint run_conns (cfg : config) (p : persist) (cs : list conn)
       let '(w, r, p1) := connect cfg (k_dial c) (k_tls c) p (k_script c) in
       let p2 := match r with Ok => add_inbound p1 (k_traffic c) | _ => p1 end in
       (w, r, p2) :: run_conns cfg p2 cs'
+  end.
+
+(* the same history as the application sees it: every connection with what was announced
+   while it was being set up *)
+Fixpoint run_clients (cfg : config) (p : persist) (cs : list conn)
+  : list (list out * result * persist * list cev) :=
+  match cs with
+  | [] => []
+  | c :: cs' =>
+      let '(w, r, p1, ev) := client_connect cfg (k_dial c) (k_tls c) p (k_script c) in
+      let p2 := match r with Ok => add_inbound p1 (k_traffic c) | _ => p1 end in
+      (w, r, p2, ev) :: run_clients cfg p2 cs'
   end.
 
 Definition reqs (w : list out) : list creq := map o_req w.
